@@ -3,7 +3,7 @@
  "name": "initialize_group_accounting",
  "props": ["C07"],
  "level": "U/iter",
- "tier": "wip",
+ "tier": "quick",
  "harness": "h_initialize_group_accounting",
  "loop_contracts": true,
  "unwind": 14,
